@@ -758,6 +758,14 @@ class ConstraintsUnion(AbstractConstraintSet):
             'all of %s failed for "%s"' % (self._values, value)
         )
 
+    # a constraint added to a union narrows it (as adding a constraint to
+    # a type does): what the union admits AND the new constraint admits
+    def __add__(self, value):
+        return ConstraintsIntersection(self, value)
+
+    def __radd__(self, value):
+        return ConstraintsIntersection(value, self)
+
 # TODO:
 # refactor InnerTypeConstraint
 # add tests for type check
